@@ -49,11 +49,15 @@ impl ResourceMonitor {
         // Host model: replay the consumed events in order and predict the backend calls.
         let mut predicted: Vec<(ProcessId, Option<ResourceId>)> = vec![];
         let mut next_pid = sys.last_env_next_pid;
-        // ownership as of each creation is set when the backend logs it (immediately below)
-        let mut created_iter = new_log.iter().filter_map(|l| match l {
-            BackendLog::Created { pid, resource } => Some((*pid, *resource)),
-            _ => None,
-        });
+        // The creator owns a new resource, whichever operation created it (an open, or an
+        // operation on another resource such as accepting on a listener). A handle cannot be
+        // created and passed on within one environment step (the creator has to receive it
+        // first), so registering the creations ahead of the batch's transfers is exact.
+        for l in &new_log {
+            if let BackendLog::Created { pid, resource } = l {
+                self.owner.insert(*resource, *pid);
+            }
+        }
         for evt in sys.last_env_input.clone() {
             match evt {
                 Event::SpawnAction {
@@ -90,11 +94,6 @@ impl ResourceMonitor {
                     }
                     None => {
                         predicted.push((process_id, None));
-                        if let Some((pid, r)) = created_iter.next() {
-                            if pid == process_id {
-                                self.owner.insert(r, pid);
-                            }
-                        }
                     }
                 },
                 _ => {}
